@@ -17,6 +17,19 @@ Theorem C13_listing_path_exact : forall am L del m q id, wfL L -> okq q ->
 Proof. exact list_ids_exact. Qed.
 Print Assumptions C13_listing_path_exact.
 
+(* SHOW TAG VALUES ... WITH KEY = k WHERE q and SHOW TAG KEYS ... WHERE q: a value / key is listed iff a series that is not
+   dropped, of the measurement, satisfying q carries it - a dropped series contributes nothing, also when it satisfies q *)
+Theorem C13_list_tag_values_where_exact : forall am L del m k q v, wfL L -> okq q -> k <> 0 ->
+  In v (list_tag_values_where am (postings L) del m k q) <->
+  exists s id, In (s, id) L /\ ~ In id del /\ s_mst s = m /\ evalq am q (s_tags s) = true /\ In (k, v) (s_tags s).
+Proof. exact list_tag_values_where_exact. Qed.
+Theorem C13_list_tag_keys_where_exact : forall am L del m q k, wfL L -> okq q ->
+  In k (list_tag_keys_where am (postings L) del m q) <->
+  exists s id v, In (s, id) L /\ ~ In id del /\ s_mst s = m /\ evalq am q (s_tags s) = true /\ In (k, v) (s_tags s).
+Proof. exact list_tag_keys_where_exact. Qed.
+Print Assumptions C13_list_tag_values_where_exact.
+Print Assumptions C13_list_tag_keys_where_exact.
+
 (* DROP SERIES with predicate q on measurement m: afterwards EVERY read (any measurement m', any shape q') returns what it
    returned before minus exactly the series q named - nothing else changes *)
 Theorem C13_drop_series_consistent : forall am s m q m' q' id, wfL (d_L s) -> okq q -> okq q' ->
